@@ -4,6 +4,7 @@ package storage
 
 import (
 	"net/netip"
+	"time"
 
 	"github.com/mycoria/mycoria/m"
 	vf "github.com/mycoria/mycoria/zzvf"
@@ -150,4 +151,108 @@ func VfC18Fields() {
 	vf.Assert(vf.DeepEqual(&gm, &sm), "mapping-record-changed-by-reload")
 	vf.Assert(len(s2.routers) == 1 && len(s2.mappings) == 1, "reloaded-state-has-different-size")
 	vf.Reach("all-fields-kept")
+}
+
+// VfC18SecondRun: a later run of the router. The state file was written by an
+// earlier run (real Stop on a state of two routers, one of them used, and a
+// mapping); this run loads it with the real loader, then does ANY sequence of K
+// storage operations - GetRouter (which stamps UsedAt), Prune, SaveRouter,
+// DeleteRouter, SaveMapping, DeleteMapping - and shuts down (no crash). The
+// next start must find exactly what was in memory at shutdown: every router
+// record (including the UsedAt stamps and the effect of pruning) and mapping.
+func VfC18SecondRun() {
+	const file = "/state.json"
+	K := vf.Param("K")
+	a1, a2 := vfAddr18(), vfAddr18()
+	vf.Assume(a1 != a2)
+	{
+		s0 := &JSONFileStorage{filename: file}
+		s0.routers = map[netip.Addr]*StoredRouter{}
+		s0.mappings = map[string]StoredMapping{}
+		used := vf.TimeSec()
+		_ = s0.SaveRouter(&StoredRouter{Address: &m.PublicAddress{IP: a1}, Universe: "u", CreatedAt: vf.TimeSec(), UsedAt: &used})
+		_ = s0.SaveRouter(&StoredRouter{Address: &m.PublicAddress{IP: a2}, Universe: "u", CreatedAt: vf.TimeSec()})
+		_ = s0.SaveMapping("a.myco", a1)
+		vfNoKill = true
+		err := s0.Stop()
+		vf.Assume(!vfCrashed)
+		vf.Assert(err == nil, "stop-failed-without-crash")
+	}
+	s, err := NewJSONFileStorage(file)
+	vf.Assert(err == nil && s != nil, "reload-failed")
+	if err != nil {
+		return
+	}
+	addrs := []netip.Addr{a1, a2}
+	for k := 0; k < K; k++ {
+		a := addrs[vf.Choose(2)]
+		switch vf.Choose(7) {
+		case 0:
+			_, _ = s.GetRouter(a)
+		case 1:
+			s.Prune(vf.Choose(3))
+		case 2:
+			_ = s.SaveRouter(&StoredRouter{Address: &m.PublicAddress{IP: a}, Universe: "v", Offline: vf.Bool()})
+		case 3:
+			_ = s.DeleteRouter(a)
+		case 4:
+			_ = s.SaveMapping([]string{"a.myco", "b.myco"}[vf.Choose(2)], a)
+		case 5:
+			_ = s.DeleteMapping([]string{"a.myco", "b.myco"}[vf.Choose(2)])
+		default:
+			// nothing happens in this slot
+		}
+	}
+	// what is in memory at shutdown
+	type snap struct {
+		has bool
+		rec StoredRouter
+		use bool
+		at  time.Time
+	}
+	var want [2]snap
+	for i, a := range addrs {
+		if r := s.routers[a]; r != nil {
+			want[i] = snap{has: true, rec: *r}
+			if r.UsedAt != nil {
+				want[i].use, want[i].at = true, *r.UsedAt
+			}
+		}
+	}
+	ma, hasA := s.mappings["a.myco"]
+	mb, hasB := s.mappings["b.myco"]
+	nr, nm := len(s.routers), len(s.mappings)
+
+	err = s.Stop()
+	vf.Assume(!vfCrashed)
+	vf.Assert(err == nil, "stop-failed-without-crash")
+	s2, err := NewJSONFileStorage(file)
+	vf.Assert(err == nil && s2 != nil, "reload-failed")
+	if err != nil {
+		return
+	}
+	vf.Assert(len(s2.routers) == nr && len(s2.mappings) == nm, "reloaded-state-differs-from-state-at-shutdown")
+	for i, a := range addrs {
+		got := s2.routers[a]
+		vf.Assert((got != nil) == want[i].has, "router-lost-or-resurrected-by-reload")
+		if got != nil && want[i].has {
+			vf.Assert(got.Universe == want[i].rec.Universe && got.Offline == want[i].rec.Offline, "router-universe-or-offline-flag-changed")
+			vf.Assert(got.CreatedAt.Equal(want[i].rec.CreatedAt) && got.UpdatedAt.Equal(want[i].rec.UpdatedAt), "router-timestamps-changed")
+			vf.Assert((got.UsedAt != nil) == want[i].use, "router-used-at-changed")
+			if got.UsedAt != nil && want[i].use {
+				vf.Assert(got.UsedAt.Equal(want[i].at), "router-used-at-changed")
+			}
+			vf.Reach("router-kept")
+		}
+	}
+	ga, gotA := s2.mappings["a.myco"]
+	gb, gotB := s2.mappings["b.myco"]
+	vf.Assert(gotA == hasA && gotB == hasB, "mapping-lost-or-resurrected-by-reload")
+	if hasA && gotA {
+		vf.Assert(ga.Router == ma.Router && ga.Created.Equal(ma.Created), "mapping-changed")
+	}
+	if hasB && gotB {
+		vf.Assert(gb.Router == mb.Router && gb.Created.Equal(mb.Created), "mapping-changed")
+	}
+	vf.Reach("done")
 }
